@@ -439,6 +439,12 @@ func init() {
 }
 
 func runC03(c *rt.Ctx) {
+	soloRun(c, "sem")
+	retainedAcrossCollections(c, "Ver.MarshalText", 256, func(i int) ([]byte, string) {
+		v := sem.New(uint64(i), uint64(i%7), uint64(i%5), fmt.Sprintf("rc.%d", i%11), fmt.Sprintf("b%d", i%13))
+		b, _ := v.MarshalText()
+		return b, fmt.Sprintf("%d.%d.%d-rc.%d+b%d", i, i%7, i%5, i%11, i%13)
+	})
 	callerEditsReturnedErrors(c, map[string]func() error{
 		"sem.Parse[string](x)":             func() error { _, err := sem.Parse("x"); return err },
 		"sem.Parse[string](01.0.0)":        func() error { _, err := sem.Parse("01.0.0"); return err },
@@ -768,4 +774,54 @@ func runC03(c *rt.Ctx) {
 	})
 	c.Require("valid-ver-roundtrip", 10000)
 	c.Require("invalid-ver", 10000)
+	// the two-argument helpers parse both operands with the form their name says: Tag helpers require the leading v on
+	// both, Version helpers forbid it on both, the plain ones take either - whichever operand comes first
+	c.Serial("form-of-both-operands", func(w *rt.W) {
+		cores := []string{"1.2.0", "1.3.0", "10.4.0", "2.0.0-rc.1", "0.0.0+b", "1.2.0-a.1+x-y"}
+		type helper struct {
+			name string
+			form int // 0 any, 1 tag required, 2 tag forbidden
+			call func(a, b string) (zero bool, err error)
+		}
+		hs := []helper{
+			{"Latest", 0, func(a, b string) (bool, error) { v, err := sem.Latest(a, b); return v.IsZero(), err }},
+			{"LatestTag", 1, func(a, b string) (bool, error) { v, err := sem.LatestTag(a, b); return v.IsZero(), err }},
+			{"LatestVersion", 2, func(a, b string) (bool, error) { v, err := sem.LatestVersion(a, b); return v.IsZero(), err }},
+			{"Latest[[]byte,string]", 0, func(a, b string) (bool, error) { v, err := sem.Latest([]byte(a), b); return v.IsZero(), err }},
+			{"LatestTag[string,[]byte]", 1, func(a, b string) (bool, error) { v, err := sem.LatestTag(a, []byte(b)); return v.IsZero(), err }},
+			{"LatestVersion[[]byte,[]byte]", 2, func(a, b string) (bool, error) { v, err := sem.LatestVersion([]byte(a), []byte(b)); return v.IsZero(), err }},
+			{"Compare", 0, func(a, b string) (bool, error) { _, err := sem.Compare(a, b); return err != nil, err }},
+			{"CompareTag", 1, func(a, b string) (bool, error) { _, err := sem.CompareTag(a, b); return err != nil, err }},
+			{"CompareVersion", 2, func(a, b string) (bool, error) { _, err := sem.CompareVersion[string, string](a, b); return err != nil, err }},
+		}
+		for _, ca := range cores {
+			for _, cb := range cores {
+				for fa := 0; fa < 2; fa++ {
+					for fb := 0; fb < 2; fb++ {
+						a, b := strings.Repeat("v", fa)+ca, strings.Repeat("v", fb)+cb
+						for _, h := range hs {
+							var zero bool
+							var err error
+							panicked, msg := rt.Call(func() { zero, err = h.call(a, b) })
+							w.Eval(1)
+							accept := h.form == 0 || (h.form == 1 && fa == 1 && fb == 1) || (h.form == 2 && fa == 0 && fb == 0)
+							args := rt.Args("helper", h.name, "a", a, "b", b)
+							switch {
+							case panicked:
+								w.Fail("panic-two-argument-helper", "pairform", args, "panic: "+firstLine(msg), "a value or an error", "see key")
+							case accept && err != nil:
+								w.Fail("valid-rejected-by-two-argument-helper", "pairform", args, "err="+err.Error(), "accepted", h.name+" refused two texts of the form it takes")
+							case !accept && err == nil:
+								w.Fail("wrong-form-accepted-by-two-argument-helper", "pairform", args, "accepted", "a typed parse error", h.name+" accepted an operand whose form (leading v) it must refuse")
+							case !accept && (!semTyped(err) || !zero):
+								w.Fail("wrong-form-untyped-error-or-nonzero-result", "pairform", args, fmt.Sprintf("zero=%v err=%T %v", zero, err, err), "a typed parse error and a zero result", "see key")
+							}
+							w.ClassN("two-argument-helper-operand-forms", 1)
+						}
+					}
+				}
+			}
+		}
+	})
+	c.Require("two-argument-helper-operand-forms", 1000)
 }
